@@ -231,3 +231,68 @@ def register_cache(reg, stubs, world):
         return [qforall([r], z3.Implies(r != V.ref(cx['cache']), z3.Select(new, r) == z3.Select(old, r)))]
     reg.add(Contract('_cache_handler:delete_cached_file', pre=dc_pre, post=dc_post, modifies=('$val',),
                      frame=only_cache, props=('C10',)))
+
+    # ------------------------------------------------------------------ _is_directory_updated (C10)
+    from specs.external import fs_isdir, fs_listdir, pjoin
+
+    def idu_entry(eng, st, cache, path):
+        cm = V.m(eng.val(st, cache))
+        e = z3.Select(cm, V.s(path))
+        return e, V.m(eng.val(st, e))
+
+    def num(x):
+        return z3.If(V.is_int(x), z3.ToReal(V.i(x)), V.r(x))
+
+    def idu_pre(cx):
+        eng, st = cx.eng, cx.st0
+        cache, path = cx['cache'], cx['path']
+        cm = V.m(eng.val(st, cache))
+        k = z3.String('idu!k')
+        e = z3.Select(cm, k)
+        mt = z3.Select(V.m(eng.val(st, e)), z3.StringVal('mtime'))
+        return [('cache-is-a-dict-object', z3.And(V.is_obj(cache), clsof(V.ref(cache)) == eng.cid('dict'),
+                                                 V.is_dict(eng.val(st, cache)))),
+                ('path-is-a-string', V.is_str(path)),
+                ('entries-are-dict-objects-with-a-numeric-non-negative-mtime', qforall([k], z3.Implies(e != ABSENT, z3.And(
+                    V.is_obj(e), clsof(V.ref(e)) == eng.cid('dict'), V.is_dict(eng.val(st, e)), V.ref(e) != V.ref(cache),
+                    z3.Or(mt == ABSENT, z3.And(z3.Or(V.is_int(mt), V.is_float(mt)), num(mt) >= 0)))), patterns=[e])),
+                ('modification-times-are-non-negative', True)]
+
+    def idu_axioms(cx):
+        p = z3.String('idu!p')
+        return [qforall([p], fs_mtime(p) >= 0, patterns=[fs_mtime(p)])]
+
+    def idu_post(cx, out):
+        eng, st, s1 = cx.eng, cx.st0, out.st
+        cache, path = cx['cache'], cx['path']
+        P = V.s(path)
+        names = fs_listdir(P)
+        e0, em0 = idu_entry(eng, st, cache, path)
+        mt0 = z3.Select(em0, z3.StringVal('mtime'))
+        old = z3.If(z3.Or(e0 == ABSENT, mt0 == ABSENT), z3.RealVal(0), num(mt0))
+        if out.kind != 'ret':
+            if out.exc.cname == 'ValueError':
+                return [('ValueError-only-for-an-existing-non-directory', z3.And(fs_exists(P), z3.Not(fs_isdir(P))))]
+            return [False]
+        j = z3.Int('idu!j')
+        inr = z3.And(j >= 0, j < z3.Length(names))
+        fm = lambda jj: fs_mtime(pjoin(P, names[jj]))
+        newer = z3.Or(fs_mtime(P) > old, z3.Exists([j], z3.And(inr, fm(j) > old)))
+        e1, em1 = idu_entry(eng, s1, cache, path)
+        mt1 = z3.Select(em1, z3.StringVal('mtime'))
+        isdir = z3.And(fs_exists(P), fs_isdir(P))
+        return [('returns-a-boolean', V.is_bool(out.value)),
+                ('never-for-an-existing-non-directory', z3.Or(z3.Not(fs_exists(P)), fs_isdir(P))),
+                ('a-newer-directory-or-entry-is-noticed', z3.Implies(z3.And(isdir, newer), out.value == TRUE)),
+                ('nothing-newer-means-not-updated', z3.Implies(z3.Or(z3.Not(fs_exists(P)), z3.And(isdir, z3.Not(newer))),
+                                                              out.value == FALSE)),
+                ('the-stamp-kept-dominates-the-directory-and-every-entry', z3.Implies(out.value == TRUE, z3.And(
+                    e1 != ABSENT, mt1 != ABSENT, num(mt1) > old, num(mt1) >= fs_mtime(P),
+                    qforall([j], z3.Implies(inr, num(mt1) >= fm(j)))))),
+                ('an-unchanged-directory-keeps-its-stamp', z3.Implies(z3.And(out.value == FALSE, e0 != ABSENT),
+                                                                    z3.And(e1 == e0, em1 == em0)))]
+    reg.add(Contract('policy:Enforcer._is_directory_updated', pre=idu_pre, post=idu_post, axioms=idu_axioms,
+                     raises=('ValueError',), modifies=('$val',), frame=lambda cx, f, o, n: [], allocates=True, props=('C10',),
+                     doc='a policy directory counts as updated exactly when its own modification time or that of one of '
+                         'its entries is newer than the stamp kept for it (a deletion or creation changes only the '
+                         'directory\'s own time, a rewrite only the file\'s); the stamp kept afterwards dominates all of them'))
